@@ -10,7 +10,7 @@ import ast, asyncio, base64, inspect, io, json, os, textwrap, urllib.parse
 from multidict import CIMultiDict
 from .common.codec import hx, st
 from .common import vloop
-from .common.c17pipe import PipeConnector, make_server
+from .common.c17pipe import PipeConnector, make_server, make_proxy_connector
 
 PROPERTY = "C17"
 LEAN_MODULES = ["AioProps.C17"]
@@ -46,7 +46,12 @@ RULE = ("a case = (method, start URL over 7 origins [same host other port / othe
         "real CookieJar's caches, then a hop to a sub-domain / sibling / parent / other host / other scheme / other path and back), "
         "fault chains (the peer closes a connection without answering: first attempt of hop k, every hop, twice in a row; "
         "301/302/303/307/308 x GET/POST/PUT/DELETE x max_redirects around the chain length x default session and retry switched off), "
-        "random mixes (15 % with random faults). A case is non-trivial when at least one request reached a server; distinct by content.")
+        "re-issue walks (the same (name, domain, path) cookie is set twice along the chain with Secure added / removed and the same or "
+        "a new value, later hops alternating http / https of the host), DummyCookieJar sessions with cookies= / Cookie header over "
+        "same-origin, cross-origin and A-B-A chains followed by a second plain call on the same session, environment-proxy tables "
+        "(http_proxy / https_proxy in both environment orders, with / without userinfo, same or different proxy, no netrc or an empty "
+        "one; chains that switch scheme and thereby proxy; CONNECT answered 502), "
+        "random mixes (15 % with random faults, 10 % DummyCookieJar, 15 % with a follow-up call). A case is non-trivial when at least one request reached a server; distinct by content.")
 TRUSTED_BASE = [
     "yarl is not modelled: each redirect target reaches the model already classified (missing / URL() raised / non-HTTP scheme / "
     "origin() raised / absolute URL with origin, Host value, request-target, userinfo-derived Authorization value) - the harness "
@@ -55,6 +60,10 @@ TRUSTED_BASE = [
     "twin CookieJar fed with the same Set-Cookie headers; the DIRECT ORACLE does not trust any CookieJar: per hop it compares the "
     "Cookie header sent with the selection of an independent RFC 6265 reference store (RefJar: domain-match, host-only flag, "
     "path-match, Secure, default-path; session cookies only) that has no caches and no memory of earlier selections",
+    "environment proxies are NOT in the Lean model: those scenarios run the real TCPConnector proxy code (only name resolution, the "
+    "socket and the TLS upgrade are replaced) and are judged by the direct oracle alone: a credential configured for one proxy "
+    "(userinfo of its *_proxy URL) may reach that proxy only, and each hop goes through the proxy of its scheme; netrc_from_env is "
+    "replaced by 'no file' / 'empty file'",
     "connection faults are injected by the in-memory server closing the pipe after reading the request; only 'closed before any "
     "response byte' is modelled (Reply.drop), not partial responses",
     "netrc, parse_cookie_header, base64, payload classes (size / consumed / Content-Type of each body kind) are oracle columns",
@@ -277,11 +286,12 @@ class RefJar:
     It shares no code and no state (caches!) with aiohttp.CookieJar: a selection depends on the store contents and the
     request URL only, never on what was selected before."""
 
-    def __init__(self):
+    def __init__(self, dummy=False):
+        self.dummy = dummy  # DummyCookieJar: nothing is ever stored
         self.store = {}     # (name, domain, path) -> dict(value, host_only, secure)
 
     def receive(self, host, upath, set_cookie_values):
-        if _is_ip(host):
+        if self.dummy or _is_ip(host):
             return          # aiohttp's default jar (unsafe=False) takes no cookies from IP hosts
         for raw in set_cookie_values:
             parts = [x.strip() for x in raw.split(";")]
@@ -410,7 +420,16 @@ async def run_case(case, obs):
                 events.append(f"c{self._c17_i}")
             return super().close()
 
+    followup_seen = []
+    phase = ["call"]
+
     async def handler(request):
+        if phase[0] == "followup":
+            # a later, independent call on the same session (no cookies=, no headers=)
+            followup_seen.append({"origin": request.transport.get_extra_info("c17_origin"),
+                                  "headers": [(k.decode("latin-1"), v.decode("latin-1")) for k, v in request.raw_headers]})
+            await request.read()
+            return web.Response(body=b"later")
         # record the request as soon as its head is parsed: a body that never arrives must still be visible
         entry = {"origin": request.transport.get_extra_info("c17_origin"), "method": request.method,
                  "target": request.raw_path,
@@ -447,9 +466,13 @@ async def run_case(case, obs):
 
     srv = make_server(handler)
     conn = PipeConnector(srv)
-    jar = CookieJar()
-    twin = CookieJar()
-    ref = RefJar()
+    dummy = case.get("jar_kind") == "dummy"
+    if dummy:
+        from aiohttp import DummyCookieJar
+        jar, twin = DummyCookieJar(), DummyCookieJar()      # a session that must never send or keep any jar cookie
+    else:
+        jar, twin = CookieJar(), CookieJar()
+    ref = RefJar(dummy)
     for o, n, v in case.get("jar0", []):
         for j in (jar, twin):
             j.update_cookies({n: v}, URL(url_str(o, "/")))
@@ -574,11 +597,165 @@ async def run_case(case, obs):
             if leak_after is None:
                 await asyncio.sleep(0)
                 leak_after = len(conn._acquired)
+            if case.get("followup") and not start.get("nohost"):
+                phase[0] = "followup"
+                try:
+                    r2 = await s.get(url_str(start["o"], "/d/later"), allow_redirects=False)
+                    r2.release()
+                except Exception as e:  # noqa
+                    followup_seen.append({"error": type(e).__name__, "headers": [], "origin": None})
         await srv.shutdown(0)
     finally:
         client_mod.netrc_from_env, client_mod.get_env_proxy_for_url = saved
-    obs.update({"out": out, "final": final, "leak_before": leak_before, "leak_after": leak_after, "hist": hist_obs})
+    obs.update({"out": out, "final": final, "leak_before": leak_before, "leak_after": leak_after, "hist": hist_obs,
+                "followup": followup_seen})
     return obs
+
+
+# ------------------------------------------------------------------------------ environment proxies (trust_env)
+PROXIES = {"p1": ("p1.test", 3128), "p2": ("p2.test", 8080), "p3": ("p3.test", 3128)}
+
+
+def proxy_url(spec):
+    """spec = [proxy id, user | None, password | None]"""
+    pid, user, pw = spec
+    host, port = PROXIES[pid]
+    ui = ""
+    if user is not None:
+        ui = (user if pw is None else f"{user}:{pw}") + "@"
+    return f"http://{ui}{host}:{port}"
+
+
+class EmptyNetrc:
+    def authenticators(self, host):
+        return None
+
+
+async def run_proxy_case(case, obs):
+    """trust_env session behind per-scheme environment proxies; the chain switches schemes, hence proxies.
+    Every request is recorded together with the endpoint (proxy or origin) its connection was opened to."""
+    import aiohttp
+    import aiohttp.client as client_mod
+    import aiohttp.helpers as helpers_mod
+    from aiohttp import web
+    from aiohttp import client_exceptions as ce
+    seen = []
+    obs.update({"seen": seen, "out": None})
+    chain = case["chain"]
+
+    async def handler(request):
+        entry = {"endpoint": request.transport.get_extra_info("c17_endpoint"), "method": request.method,
+                 "target": request._message.path,
+                 "headers": [(k.decode("latin-1"), v.decode("latin-1")) for k, v in request.raw_headers]}
+        seen.append(entry)
+        if request.method == "CONNECT":
+            # the "body" of a CONNECT is the tunnel itself: answer at once
+            return web.Response(status=200 if case.get("tunnel", True) else 502)
+        await request.read()
+        i = sum(1 for x in seen if x["method"] != "CONNECT") - 1
+        if i < len(chain):
+            r = chain[i]
+            return web.Response(status=r["status"], headers={"Location": url_str(r["loc"]["o"], r["loc"]["path"])})
+        return web.Response(body=b"end")
+
+    srv = make_server(handler)
+    conn = make_proxy_connector(srv)
+    saved_env = dict(os.environ)
+    saved = (client_mod.netrc_from_env, helpers_mod.netrc_from_env)
+    for v in list(os.environ):
+        if v.lower().endswith("_proxy") or v == "NETRC":
+            del os.environ[v]
+    for name, spec in case["env"]:            # insertion order = environment order
+        os.environ[name] = proxy_url(spec)
+    nr = {"none": (lambda: None), "empty": (lambda: EmptyNetrc())}[case.get("netrc", "none")]
+    client_mod.netrc_from_env = nr
+    helpers_mod.netrc_from_env = nr
+    out = None
+    try:
+        async with aiohttp.ClientSession(connector=conn, trust_env=True) as s:
+            try:
+                r = await s.request(case["method"], url_str(case["start"]["o"], case["start"]["path"]),
+                                    headers=CIMultiDict(case.get("headers") or []) or None)
+                out = f"ok,{r.status}"
+                r.release()
+            except ce.ClientHttpProxyError:
+                out = "err,proxy"
+            except Exception as e:  # noqa
+                out = f"err,{type(e).__name__}"
+        await srv.shutdown(0)
+    finally:
+        client_mod.netrc_from_env, helpers_mod.netrc_from_env = saved
+        os.environ.clear()
+        os.environ.update(saved_env)
+    obs["out"] = out
+    return obs
+
+
+def oracle_proxy(ctx, case, res, hang):
+    """credentials configured for one environment proxy reach that proxy only (and no origin)"""
+    if res is None or hang:
+        ctx.violation("C17/proxy/request-never-completes", case, "the proxied call neither returned nor raised")
+        return
+    cred_of = {}       # endpoint -> its own credential (None = none configured)
+    for name, spec in case["env"]:
+        pid, user, pw = spec
+        cred_of[PROXIES[pid]] = basic((user, pw or "")) if user is not None else None
+    env_creds = {c for c in cred_of.values() if c}
+    for k, s in enumerate(res["seen"]):
+        pa = [v for n, v in s["headers"] if n.lower() == "proxy-authorization"]
+        ep = tuple(s["endpoint"]) if s["endpoint"] else None
+        for v in pa:
+            if v not in env_creds:
+                continue
+            if ep not in cred_of:
+                ctx.violation("C17/confine/env-proxy-credential-sent-to-an-origin", case,
+                              f"request {k} ({s['method']} {s['target']}) went directly to {ep} with the Proxy-Authorization of an environment proxy")
+            elif cred_of[ep] != v:
+                owner = [e for e, c in cred_of.items() if c == v]
+                ctx.violation("C17/confine/env-proxy-credential-sent-to-another-proxy", case,
+                              f"request {k} ({s['method']} {s['target']}) to proxy {ep} carries the Proxy-Authorization configured for proxy {owner}")
+    # each hop must go through the proxy configured for its scheme (a redirect that changes scheme changes proxy)
+    table = {name.lower()[:-6]: PROXIES[spec[0]] for name, spec in case["env"]}
+    hop_urls = [(case["start"]["o"], case["start"]["path"])] + [(r["loc"]["o"], r["loc"]["path"]) for r in case["chain"]]
+    reqs = [s for s in res["seen"]]
+    i = 0
+    for o, path in hop_urls:
+        if i >= len(reqs):
+            break
+        sch, host, port = ORIGINS[o]
+        want = table.get(sch)
+        s = reqs[i]
+        ep = tuple(s["endpoint"])
+        if want is not None and ep != want or want is None and ep != (host, port):
+            ctx.violation("C17/proxy/hop-sent-through-the-wrong-endpoint", case,
+                          f"hop to {sch}://{host}:{port}{path} was sent to {ep}, environment says {want or 'direct'}")
+            break
+        i += 1
+        if want is not None and sch == "https":
+            if s["method"] != "CONNECT":
+                break
+            if not case.get("tunnel", True):
+                break
+            i += 1      # the tunnelled request itself
+
+
+def proxy_cases():
+    import itertools
+    specs = [["p1", "user1", "pw1"], ["p1", None, None], ["p2", "user2", "pw2"], ["p2", None, None], ["p3", "u3", None]]
+    for hs, ss in itertools.product(specs + [None], repeat=2):
+        if hs is None and ss is None:
+            continue
+        if hs is not None and ss is not None and hs[0] == ss[0] and hs[1:] != ss[1:]:
+            continue        # one proxy, two different credentials: whose they are is not well defined
+        for order in (0, 1):
+            env = [e for e in ([("http_proxy", hs), ("https_proxy", ss)] if order == 0 else [("https_proxy", ss), ("http_proxy", hs)])
+                   if e[1] is not None]
+            for walk in ((0, 2), (2, 0), (0, 4, 3), (2, 3), (0, 3), (4, 2)):
+                for netrc in ("none", "empty"):
+                    yield {"kind": "proxy", "env": [[n, sp] for n, sp in env], "netrc": netrc, "method": "GET", "tunnel": False,
+                           "start": {"o": walk[0], "path": "/d/x0"},
+                           "chain": [{"status": (302, 307, 303)[k % 3], "loc": {"o": o, "path": f"/d/x{k + 1}"}} for k, o in enumerate(walk[1:])],
+                           "class": "env-proxy"}
 
 
 def norm_events(line):
@@ -605,6 +782,11 @@ def canon(res, hang):
 
 def execute(case):
     obs = {}
+    if case.get("kind") == "proxy":
+        res, excs, quiescent = vloop.run(lambda: run_proxy_case(case, obs))
+        if quiescent:
+            res = obs if "seen" in obs else None
+        return res, quiescent, excs
     res, excs, quiescent = vloop.run(lambda: run_case(case, obs))
     if quiescent:
         res = obs if "model_line" in obs else None
@@ -693,6 +875,18 @@ def oracle(ctx, case, res, hang):
             elif under:
                 ctx.violation("C17/jar/cookie-selected-for-this-hop-not-sent", case,
                               f"request {k} (hop {hop}) to {s['origin']} {s['target']}: jar selection {under} missing, sent {got}")
+
+    # a later call on the same session must not carry what was supplied to this call only
+    for fs in res.get("followup") or []:
+        fpairs = [p for n, v in fs["headers"] if n.lower() == "cookie" for p in cookie_pairs(v)]
+        call_hcookies = [p for n, v in res["hdrs"] if n.lower() == "cookie" for p in cookie_pairs(v)]   # session defaults excluded
+        call_auth = [v for n, v in res["hdrs"] if n.lower() == "authorization"]
+        if any(p in caller_rcookies or p in call_hcookies for p in fpairs):
+            ctx.violation("C17/confine/per-request-cookie-sent-on-a-later-call", case,
+                          f"a later GET on the same session (no cookies=) carried {fpairs}: the cookies= / Cookie header of the "
+                          f"earlier call were kept by the session")
+        if any(v in call_auth for n, v in fs["headers"] if n.lower() == "authorization"):
+            ctx.violation("C17/confine/caller-authorization-sent-on-a-later-call", case, "Authorization of the earlier call re-sent")
 
     # method / body table (over the answered requests; a transparent resend must repeat the request it replaces)
     exp_body = res["body"][1] if res["body"] else b""
@@ -886,6 +1080,11 @@ def gen_case(rng, *, n=None, method=None, body=None, statuses=None, forms=None, 
     if rng.random() < 0.12:
         case["session_headers"] = rng.choice([[["Authorization", "Bearer SESSION-A"]], [["X-Sess", "1"], ["Cookie", "sc=1"]],
                                               [["Proxy-Authorization", "Basic SESSION-P"], ["User-Agent", "sess"]]])
+    if rng.random() < 0.1:
+        case["jar_kind"] = "dummy"
+        case["jar0"] = []
+    if rng.random() < 0.15:
+        case["followup"] = True
     if rng.random() < 0.15:
         case["faults"] = sorted(rng.sample(range(0, n + 3), rng.choice([1, 1, 2, 3])))
         if rng.random() < 0.2:
@@ -963,6 +1162,42 @@ def jar_walks():
                                "cookies": None, "jar0": [], "body": {"kind": "none"}, "chain": chain, "class": "jar-walk"}
 
 
+def reissue_walks():
+    """the same cookie (name, domain, path) is issued twice along the chain with changed attributes (Secure added / removed,
+    same or new value); later hops alternate between http and https of the same host"""
+    for http_o, https_o in ((0, 2), (5, 9)):
+        for first_o, second_o in ((http_o, https_o), (https_o, http_o), (http_o, http_o), (https_o, https_o)):
+            for a1 in ("", "; Secure"):
+                for a2 in ("", "; Secure"):
+                    for v2 in ("V1", "V2"):
+                        for dom in ("", "; Domain=a.test"):
+                            chain = [
+                                {"status": 302, "loc": {"form": "abs", "o": second_o, "path": "/d/step", "cred": None},
+                                 "set_cookie": [f"sid=V1{dom}; Path=/{a1}"]},
+                                {"status": 302, "loc": {"form": "abs", "o": http_o, "path": "/d/plain", "cred": None},
+                                 "set_cookie": [f"sid={v2}{dom}; Path=/{a2}"]},
+                                {"status": 302, "loc": {"form": "abs", "o": https_o, "path": "/d/sec", "cred": None}},
+                                {"status": 302, "loc": {"form": "abs", "o": http_o, "path": "/d/plain2", "cred": None}},
+                            ]
+                            yield {"max": 10, "allow": True, "trust": False, "method": "GET",
+                                   "start": {"o": first_o, "path": "/d/login", "cred": None}, "params": None, "headers": [],
+                                   "cookies": None, "jar0": [], "body": {"kind": "none"}, "chain": chain, "class": "reissue-walk"}
+
+
+def dummy_jar_cases():
+    """DummyCookieJar sessions: per-request cookies= and Set-Cookie responses along same-origin, cross-origin and A-B-A chains;
+    a later call on the same session must be clean"""
+    for cookies in ({"rc": "v"}, {"rc": "v", "rd": "w"}, None):
+        for walk in ((0,), (3,), (0, 3), (3, 0), (1, 0), (0, 0, 3), (2, 0)):
+            for status in (302, 307):
+                for hdr in ([], [["Cookie", "hc=1"]]):
+                    chain = [{"status": status, "loc": {"form": "abs", "o": o, "path": f"/d/j{k + 1}", "cred": None},
+                              "set_cookie": [f"s{k}=v{k}; Path=/"]} for k, o in enumerate(walk)]
+                    yield {"max": 10, "allow": True, "trust": False, "method": "GET", "start": {"o": 0, "path": "/d/j0", "cred": None},
+                           "params": None, "headers": hdr, "cookies": cookies, "jar0": [], "body": {"kind": "none"}, "chain": chain,
+                           "jar_kind": "dummy", "followup": True, "class": "dummy-jar"}
+
+
 def fault_chains():
     """the peer closes a connection without answering: first attempt of hop k, every hop, twice in a row, the last hop"""
     for status in REDIRECTS:
@@ -1018,6 +1253,10 @@ def classify_generated(ctx, case):
             ctx.hit("gen:fault:retry-off")
     if case.get("class"):
         ctx.hit("gen:class:" + case["class"])
+    if case.get("jar_kind") == "dummy":
+        ctx.hit("gen:dummy-jar" + ("+cookies" if case.get("cookies") else ""))
+    if case.get("followup"):
+        ctx.hit("gen:followup-call")
 
 
 def classify(ctx, case, res, hang):
@@ -1049,6 +1288,16 @@ def run_all(ctx, cases):
             ctx.notes.append("time budget reached before all generated cases were run")
             break
         res, hang, excs = execute(case)
+        if case.get("kind") == "proxy":
+            # environment proxies are outside the Lean model: direct oracle only
+            ctx.hit("gen:class:env-proxy", "proxy-outcome:" + ("HANG" if hang or res is None else str(res["out"])))
+            if res is not None:
+                for x in res["seen"]:
+                    ctx.hit("proxy-request:" + ("CONNECT" if x["method"] == "CONNECT" else "via-proxy" if tuple(x["endpoint"]) in PROXIES.values() else "direct"))
+            ctx.case(case, nontrivial=res is not None and len(res["seen"]) > 0,
+                     sample={"case": case, "seen": [(x["endpoint"], x["method"], x["target"]) for x in res["seen"]][:4]} if res and len(results) % 211 == 0 else None)
+            oracle_proxy(ctx, case, res, hang)
+            continue
         results.append((case, res, hang))
     lines = [r[1]["model_line"] for r in results if r[1] is not None]
     outs = ctx.model(lines) if lines else []
@@ -1077,14 +1326,17 @@ def check(ctx):
     counters = list(counter_cases())
     jwalks = list(jar_walks())
     fchains = list(fault_chains())
+    rwalks = list(reissue_walks())
+    dcases = list(dummy_jar_cases())
+    pcases = list(proxy_cases())
     # the budget of this check starts now (a first run in a fresh worktree spends minutes building the Lean side)
     import time
     ctx.deadline = time.time() + (60 if ctx.quick else 780)
     if ctx.quick:
-        cases += rng.sample(table, 400) + rng.sample(walks, 200) + counters + rng.sample(jwalks, 400) + rng.sample(fchains, 500)
-        n_rand, n_cred, n_forms = 2400, 700, 700
+        cases += rng.sample(table, 400) + rng.sample(walks, 200) + counters + rng.sample(jwalks, 300) + rng.sample(fchains, 400) + rwalks + rng.sample(dcases, 60) + rng.sample(pcases, 250)
+        n_rand, n_cred, n_forms = 2000, 600, 600
     else:
-        cases += table + walks + counters + jwalks + fchains
+        cases += table + walks + counters + jwalks + fchains + rwalks + dcases + pcases
         ctx.extra["exhaustive_small_scopes"] = ("all status x method x body-kind tables (x 3 continuations), all origin walks of "
                                                "length 3 over 4 origins x credential position, all (chain length, max_redirects) pairs <= (5, 7)")
         n_rand, n_cred, n_forms = 50000, 12000, 12000
@@ -1095,7 +1347,9 @@ def check(ctx):
     run_all(ctx, cases)
     # blind spots are judged on what was generated (and on the model's verdicts), never on the implementation's behaviour
     need = ["gen:A-B-A", "gen:url-credentials", "gen:trust-env", "gen:slow-body", "gen:fault:one", "gen:fault:several",
-            "gen:fault:retry-off", "gen:class:jar-walk", "gen:class:fault-chain"] + \
+            "gen:fault:retry-off", "gen:class:jar-walk", "gen:class:fault-chain", "gen:class:reissue-walk", "gen:class:dummy-jar",
+            "gen:dummy-jar+cookies", "gen:followup-call", "gen:class:env-proxy", "proxy-request:CONNECT",
+            "proxy-request:via-proxy", "proxy-request:direct"] + \
            [f"gen:form:{f}" for f in ("abs", "schemerel", "rel", "relpath", "none", "invalid", "nonhttp", "badorigin")] + \
            [f"gen:status:{s}" for s in REDIRECTS] + [f"gen:body:{b}" for b in BODY_KINDS]
     if ctx.model_available:
@@ -1109,4 +1363,7 @@ def check(ctx):
 
 def replay(ctx, case):
     res, hang, excs = execute(case)
-    oracle(ctx, case, res, hang)
+    if case.get("kind") == "proxy":
+        oracle_proxy(ctx, case, res, hang)
+    else:
+        oracle(ctx, case, res, hang)
